@@ -53,6 +53,18 @@ fn main() {
                 writeln!(out, "{}", line).unwrap();
             }
         }
+        "fickle" => {
+            // a caller-defined source type whose AsRef<str> answers differently each time it is asked (legal, safe
+            // Rust): record = first text, U+0001, later text.  Prints "<calls> <canonical line>".
+            canon::quiet_panics();
+            for rec in read_records() {
+                let mut it = rec.splitn(2, '\u{1}');
+                let first = it.next().unwrap_or("").to_string();
+                let later = it.next().unwrap_or("").to_string();
+                let line = canon::guarded(|| extra::fickle_line(&first, &later));
+                writeln!(out, "{}", line).unwrap();
+            }
+        }
         "parse+s" | "expr+s" | "stmt+s" | "stmts2+s" | "stmts3+s" => {
             canon::quiet_panics();
             for rec in read_records() {
